@@ -16,6 +16,7 @@
 (*   Load(j, status) LoadCut(j, status)   POST /load_dump of the last dump *)
 (*                           intact / truncated                            *)
 (*   Tick(d)                 d whole seconds passed                        *)
+(*   Flush(i, strict)        GET /flush                                    *)
 (* Contract freedom: TTLs may be one second lower than computed (Skew:     *)
 (* wall clock between the harness' and the plugin's time.Now()); a loose   *)
 (* instance may miss although an entry could be live, and may have stored  *)
@@ -54,7 +55,8 @@ EntryOfEv(x) ==
 Inject ==
     /\ IsEvent("Inject")
     /\ cache' = [cache EXCEPT ![Ev.i] = Overlay(@, LiveOf({EntryOfEv(Ev.ents[x]) : x \in DOMAIN Ev.ents}))]
-    /\ UNCHANGED <<lazy, now, serial, inflight, handles, dump, dumpOf, mirror, obs, lastq, nops, hist, loose>>
+    /\ obs' = Ack("injected")
+    /\ UNCHANGED <<lazy, now, serial, inflight, handles, dump, dumpOf, mirror, lastq, nops, hist, loose>>
 
 \* observed TTLs: computed value, or up to Skew seconds older
 TTLsMatch(o, v, e) ==
@@ -95,7 +97,7 @@ ExecEv ==
        /\ lastq' = q
        /\ obs' = [res |-> IF o.res = "hit" THEN View(i, KeyOf(q)).res ELSE o.res, owner |-> IF o.owner.f = -1 THEN [o.owner EXCEPT !.f = q.f] ELSE o.owner,
                   id |-> IF o.id = -1 /\ o.res = "hit" THEN View(i, KeyOf(q)).id ELSE o.id,
-                  ttls |-> o.ttls, cont |-> o.cont, idok |-> o.idok]
+                  ttls |-> o.ttls, cont |-> o.cont, idok |-> o.idok, i |-> i]
        /\ CASE o.res = "bypass" -> q.k # "std" /\ UNCHANGED <<cache, inflight>>
             [] o.res = "hit" -> q.k = "std" /\ ExecHit(i, q, o)
             [] o.res = "miss" -> q.k = "std" /\ ExecMiss(i, q, Ev.r, Ev.sid)
@@ -124,14 +126,29 @@ MutateEv ==
     /\ IsEvent("Mutate")
     /\ UNCHANGED <<vars, loose>>
 
-\* a dumped entry is a live entry of the instance; a loose instance may have chosen shorter lifetimes
+\* a dumped entry is a live entry of the instance.  x = [id, rem, crem, age]: remaining message / cache
+\* lifetime and age at the time of the dump (age = -1: stored time not examined).  A loose instance may
+\* have chosen shorter lifetimes.
 DumpMatches(i, x, e) ==
     /\ e.id = x.id
-    /\ IF i \in loose
-       THEN x.life <= e.msgExp - e.stored /\ x.clife <= e.cacheExp - e.stored
-       ELSE x.life = e.msgExp - e.stored /\ x.clife = e.cacheExp - e.stored
-    /\ \E s \in 0..Skew : x.age = now + s - e.stored
-Refined(e, x) == [e EXCEPT !.msgExp = e.stored + x.life, !.cacheExp = e.stored + x.clife]
+    /\ IF x.age = -1
+       THEN IF i \in loose
+            THEN x.rem <= e.msgExp - now /\ x.crem <= e.cacheExp - now
+            ELSE \E s \in 0..Skew : x.rem + s = e.msgExp - now /\ x.crem + s = e.cacheExp - now
+       ELSE /\ \E s \in 0..Skew : x.age = now + s - e.stored
+            /\ IF i \in loose
+               THEN x.rem + x.age <= e.msgExp - e.stored /\ x.crem + x.age <= e.cacheExp - e.stored
+               ELSE x.rem + x.age = e.msgExp - e.stored /\ x.crem + x.age = e.cacheExp - e.stored
+Refined(e, x) == IF x.age = -1 THEN e
+                 ELSE [e EXCEPT !.msgExp = e.stored + x.rem + x.age, !.cacheExp = e.stored + x.crem + x.age]
+
+FlushEv ==
+    /\ IsEvent("Flush")
+    /\ cache' = [cache EXCEPT ![Ev.i] = {}]
+    /\ loose' = IF Ev.strict THEN loose \ {Ev.i} ELSE loose
+    /\ mirror' = <<>>
+    /\ obs' = Ack("flushed")
+    /\ UNCHANGED <<lazy, now, serial, inflight, handles, dump, dumpOf, lastq, nops, hist>>
 
 DumpEv ==
     /\ IsEvent("Dump")
@@ -143,8 +160,8 @@ DumpEv ==
        /\ LET nc == {Refined(e, CHOOSE x \in xs : x.id = e.id) : e \in {e \in live : \E x \in xs : x.id = e.id}} IN
           /\ cache' = [cache EXCEPT ![i] = nc]
           /\ dump' = nc
-    /\ dumpOf' = Ev.i
-    /\ UNCHANGED <<lazy, now, serial, inflight, handles, mirror, obs, lastq, nops, hist, loose>>
+    /\ dumpOf' = Ev.i /\ obs' = Ack("dumped")
+    /\ UNCHANGED <<lazy, now, serial, inflight, handles, mirror, lastq, nops, hist, loose>>
 
 LoadEv ==
     /\ IsEvent("Load")
@@ -152,7 +169,8 @@ LoadEv ==
     /\ dumpOf \in Insts
     /\ cache' = [cache EXCEPT ![Ev.j] = Overlay(@, LiveOf(dump))]
     /\ mirror' = IF cache[Ev.j] = {} /\ dumpOf # Ev.j /\ LiveOf(dump) = LiveOf(cache[dumpOf]) THEN <<dumpOf, Ev.j>> ELSE <<>>
-    /\ UNCHANGED <<lazy, now, serial, inflight, handles, dump, dumpOf, obs, lastq, nops, hist, loose>>
+    /\ obs' = Ack("loaded")
+    /\ UNCHANGED <<lazy, now, serial, inflight, handles, dump, dumpOf, lastq, nops, hist, loose>>
 
 \* truncated: must be refused; whatever was added is a subset of the dump (instance becomes loose)
 LoadCutEv ==
@@ -161,20 +179,20 @@ LoadCutEv ==
     /\ dumpOf \in Insts
     /\ cache' = [cache EXCEPT ![Ev.j] = Overlay(@, LiveOf(dump))]
     /\ loose' = loose \cup {Ev.j}
-    /\ mirror' = <<>>
-    /\ UNCHANGED <<lazy, now, serial, inflight, handles, dump, dumpOf, obs, lastq, nops, hist>>
+    /\ mirror' = <<>> /\ obs' = Ack("error")
+    /\ UNCHANGED <<lazy, now, serial, inflight, handles, dump, dumpOf, lastq, nops, hist>>
 
 TickEv ==
     /\ IsEvent("Tick")
-    /\ now' = now + Ev.d
-    /\ UNCHANGED <<lazy, cache, serial, inflight, handles, dump, dumpOf, mirror, obs, lastq, nops, hist, loose>>
+    /\ now' = now + Ev.d /\ obs' = Ack("tick")
+    /\ UNCHANGED <<lazy, cache, serial, inflight, handles, dump, dumpOf, mirror, lastq, nops, hist, loose>>
 
 PropInv ==
     /\ NoSharing /\ BypassRule /\ StaleRule /\ AdmissionRule /\ NeverServedAfterExpiry
     /\ AtMostOneRefresh /\ Isolation /\ HitId /\ RestartTransparent
 
 TraceNext ==
-    (Reset \/ Inject \/ ExecEv \/ RefreshStart \/ RefreshEndEv \/ MutateEv \/ DumpEv \/ LoadEv \/ LoadCutEv \/ TickEv)
+    (Reset \/ Inject \/ FlushEv \/ ExecEv \/ RefreshStart \/ RefreshEndEv \/ MutateEv \/ DumpEv \/ LoadEv \/ LoadCutEv \/ TickEv)
     /\ PropInv'
 
 TraceSpec == TraceInit /\ [][TraceNext]_tvars
